@@ -1,7 +1,7 @@
 """C14 - engine instances are isolated from one another.
 Seeded histories of create / define / use / probe / destroy over 3 engine slots (heap or placement-new at a fixed, re-used address),
 executed from the main thread and three long-lived worker threads (create and destroy may happen on different threads), with colliding
-names for locals, globals, script functions, C++ functions, classes and the used file. A per-engine dictionary model predicts, for every
+names for locals, globals, script functions, C++ functions, classes, user conversions, registered type names and the used file. A per-engine dictionary model predicts, for every
 probe, whether a name is visible (and with which value) in a given engine on a given thread. ASan watches for stale per-thread state."""
 import os
 import random
@@ -17,6 +17,7 @@ FUNCS = ["fa", "fb"]
 CPPS = ["ca"]
 CLASSES = ["KA"]
 CONVS = ["ca", "cb", "cc"]
+TYPES = ["TA", "TB"]
 NSLOTS = 3
 NTHREADS = 4
 
@@ -30,6 +31,7 @@ class Eng:
         self.cpps = {}
         self.classes = {}
         self.convs = {}
+        self.types = {}
         self.used = False
         self.usecount = 0
 
@@ -58,6 +60,9 @@ def gen_history(rng, usedir):
             out.append("probe:%d:%d:%s().get():%s" % (s, t, nm, "int:%d" % e.classes[nm] if nm in e.classes else "!ERR"))
         for nm in CONVS:
             out.append("probe:%d:%d:tgt_%s(mk_%s()):%s" % (s, t, nm, nm, "int:%d" % e.convs[nm] if nm in e.convs else "!ERR"))
+        for nm in TYPES:
+            out.append("probe:%d:%d:tyidx(type(\"%s\")):%s" % (s, t, nm, "int:%d" % e.types[nm] if nm in e.types else "!ERR"))
+            out.append("probe:%d:%d:tyidx(%s_type):%s" % (s, t, nm, "int:%d" % e.types[nm] if nm in e.types else "!ERR"))
         return out
 
     for _ in range(n):
@@ -106,7 +111,12 @@ def gen_history(rng, usedir):
             if nm not in e.convs:
                 e.convs[nm] = v
                 ops.append("addconv:%d:%d:%s:%d" % (s, t, nm, v))
-        elif k < 0.91:
+        elif k < 0.89:
+            nm = rng.choice(TYPES)
+            if nm not in e.types:
+                e.types[nm] = rng.randrange(3)
+                ops.append("addtype:%d:%d:%s:%d" % (s, t, nm, e.types[nm]))
+        elif k < 0.93:
             nm = rng.choice(CLASSES)
             if nm not in e.classes:
                 e.classes[nm] = v
@@ -156,7 +166,7 @@ def run(ctx, tier, seed, scale=1.0):
                 # discriminate by what leaked/was lost and where the probe ran
                 step = p[1]
                 thread = "main-thread" if ":0:" in step.split("[")[1][:14] else "worker-thread"
-                what = "local" if any(":%s:" % nm in step for nm in LOCALS) else ("global" if any(":%s:" % nm in step for nm in GLOBALS) else ("conversion" if ("tgt_" in step or "addconv" in step) else "function-or-class"))
+                what = "local" if any(":%s:" % nm in step for nm in LOCALS) else ("global" if any(":%s:" % nm in step for nm in GLOBALS) else ("conversion" if ("tgt_" in step or "addconv" in step) else ("type-name" if ("tyidx" in step or "addtype" in step) else "function-or-class")))
                 ctx.violation("%s:%s:%s" % (p[0], what, thread), {"history": h, "failed": p[1:]})
             if len(ctx.samples) < 3 and rng.random() < 0.01:
                 ctx.sample({"history": h[:40]})
@@ -167,6 +177,6 @@ def run(ctx, tier, seed, scale=1.0):
     finally:
         shutil.rmtree(usedir, ignore_errors=True)
     ctx.rule = ("one case = one history of 8-35 operations over 3 engine slots (fixed address re-used by placement new, or heap) and 4 threads (main + 3 "
-                "long-lived workers) with colliding names (locals, globals, script functions, C++ functions, classes, user type conversions); after every operation all live engines are probed for every name on the acting thread and a "
+                "long-lived workers) with colliding names (locals, globals, script functions, C++ functions, classes, user type conversions, registered type names bound to a different C++ type per engine); after every operation all live engines are probed for every name on the acting thread and a "
                 "random one; non-trivial iff the history creates >= 2 engines; distinct by operation list")
     ctx.assumptions += ["operations are executed one at a time (on different threads); concurrency is C13's subject"]
